@@ -506,7 +506,22 @@ class Program(object):
         return [b for k, b in sorted(self.lib_bodies.items()) if r.search(k)]
 
     def children(self, key):
-        return [b for k, b in sorted(self.lib_bodies.items()) if b.parent == key]
+        """closure / async-block bodies of `key`: by parent link, plus those a helper merged into `key` brought along
+        (closure literals constructed inside the body)"""
+        out = [b for k, b in sorted(self.lib_bodies.items()) if b.parent == key]
+        body = self.bodies.get(key)
+        if body is not None and body.j.get("inlined"):
+            have = set(b.key for b in out)
+            for blk in body.blocks:
+                if blk.cleanup:
+                    continue
+                for s in blk.stmts:
+                    if s.kind == "assign" and s.rv.k == "agg" and s.rv.j.get("closure"):
+                        cb = self.bodies.get(s.rv.j["closure"])
+                        if cb is not None and cb.key not in have and cb.key != key:
+                            have.add(cb.key)
+                            out.append(cb)
+        return out
 
     def const_value(self, name_or_key):
         c = self.consts.get(name_or_key) or self.consts_by_name.get(name_or_key)
